@@ -27,6 +27,7 @@ from .values import (
     Gamma,
     ModV,
     Obj,
+    OneShot,
     Shape,
     T,
     TV,
@@ -433,6 +434,12 @@ class Interp:
         if isinstance(f.node, ast.Lambda):
             env = Env(f.env, bound)
             return self.eval(f.node.body, env, f.module)
+        if self.guard and self.call_stack.count(f.qualname) >= 2:
+            # recursion under an undecided condition: summarise the recursive call as an
+            # uninterpreted application instead of unfolding it without bound
+            term = T("call", (f"{f.module.name}.{f.qualname}", tuple((k, _term(v)) for k, v in bound.items())))
+            self.log("call", node, callee=f"{f.module.name}.{f.qualname}", bound=bound, func=f, result=term, recursion_cut=True)
+            return TV(term)
         if self.depth >= self.MAX_DEPTH or self.call_stack.count(f.qualname) > 40:
             raise Unsupported(f"inlining bound reached at {f.qualname}")
         self.log("enter", node, func=f, bound=bound)
@@ -785,6 +792,11 @@ class Interp:
         raise Unsupported(f"statement {type(st).__name__} at {mi.rel}:{st.lineno}")
 
     def concrete_iter(self, it: Any) -> Optional[List[Any]]:
+        if isinstance(it, OneShot):
+            if it.consumed:
+                return []
+            it.consumed = True
+            return list(it)
         if isinstance(it, (tuple, list)):
             return list(it)
         if isinstance(it, (set, frozenset)):
@@ -1005,7 +1017,17 @@ class Interp:
         return d
 
     def e_JoinedStr(self, n: ast.JoinedStr, env: Env, mi: ModInfo) -> Any:
-        return "<fstring>"
+        parts: List[str] = []
+        for v in n.values:
+            if isinstance(v, ast.Constant):
+                parts.append(str(v.value))
+            elif isinstance(v, ast.FormattedValue):
+                try:
+                    val = self.eval(v.value, env, mi)
+                    parts.append(val if isinstance(val, str) else "{" + fmt(_term(val)) + "}")
+                except Unsupported:
+                    parts.append("{?}")
+        return "".join(parts)
 
     def e_Lambda(self, n: ast.Lambda, env: Env, mi: ModInfo) -> Any:
         return FuncV(n, mi, env, "<lambda>")
@@ -1342,7 +1364,12 @@ class Interp:
         if isinstance(v, (TV, Obj)):
             if isinstance(v, Obj) and "__getitem__" in v.attrs:
                 return self.call_function(v.attrs["__getitem__"], [idx], {}, node)
-            return TV(T("getitem", (_term(v), _term(idx))), alias=getattr(v, "alias", frozenset()), dtype=getattr(v, "dtype", None), kind=getattr(v, "kind", "opaque"))
+            shape = None
+            vs = getattr(v, "shape", None)
+            if vs is not None and isinstance(idx, tuple) and len(idx) == len(vs) and all(isinstance(i_, slice) or (isinstance(i_, T) and i_.op == "slice") or isinstance(i_, Gamma) for i_ in idx):
+                # slicing keeps the rank; the sizes become fresh symbols
+                shape = Shape(tuple(sp.Symbol(f"sliced{k_}({fmt(_term(v))})", integer=True, positive=True) for k_ in range(len(vs))))
+            return TV(T("getitem", (_term(v), _term(idx))), shape=shape, alias=getattr(v, "alias", frozenset()), dtype=getattr(v, "dtype", None), kind=getattr(v, "kind", "opaque"))
         if isinstance(v, Unknown):
             return v
         if isinstance(v, ExtV) and v.name == "sys.modules" and isinstance(idx, str):
@@ -1395,10 +1422,12 @@ class Interp:
     def e_GeneratorExp(self, n: ast.GeneratorExp, env: Env, mi: ModInfo) -> Any:
         out: List[Any] = []
         self._comp(n.generators, env, mi, lambda e: out.append(self.eval(n.elt, e, mi)))
-        return tuple(out)
+        return OneShot(out)
 
     def e_SetComp(self, n: ast.SetComp, env: Env, mi: ModInfo) -> Any:
-        return self.e_GeneratorExp(n, env, mi)  # type: ignore[arg-type]
+        out: List[Any] = []
+        self._comp(n.generators, env, mi, lambda e: out.append(self.eval(n.elt, e, mi)))
+        return make_set(out)
 
     def e_DictComp(self, n: ast.DictComp, env: Env, mi: ModInfo) -> Any:
         out: Dict[Any, Any] = {}
@@ -1843,7 +1872,7 @@ def value_eq(a: Any, b: Any) -> bool:
     if a is b:
         return True
     if isinstance(a, TV) and isinstance(b, TV):
-        return a.term == b.term
+        return a.term == b.term and a.dtype == b.dtype and a.alias == b.alias
     if isinstance(a, Obj) or isinstance(b, Obj):
         return a is b
     if isinstance(a, Gamma) and isinstance(b, Gamma):
